@@ -26,7 +26,9 @@ import (
 // input (arrays of bytes, decode values), where jq fails on a non-string.
 // A difference belongs to this class iff it disappears completely when, in the
 // same program, every `fromjson` is replaced by
-//     if type == "string" then fromjson | tovalue else error end
+//
+//	if type == "string" then fromjson | tovalue else error end
+//
 // (tovalue is fq's documented conversion of a decode value to its JSON value) -
 // and only then. Which primitives of decode values deviate, value by value, is
 // C08's subject; here every composition that merely inherits them is folded into
@@ -173,67 +175,207 @@ func invalidPathThroughSplit(prog string, ref, fo Obs) bool {
 // nativeSplitInPath rewrites the calls of split that are written inside a path
 // expression - the argument of path(..), del(..), pick(..) or the left hand side
 // of |=, =, +=, //= - into calls of _orig_split, the name under which fq's prelude
-// keeps the engine's native split. Calls of split anywhere else are left alone.
+// keeps the engine's native split. The first argument of a locally defined f(g..)
+// whose body uses g as a path, and the body of a locally defined f called inside a
+// path expression, count as inside it. Calls of split anywhere else are left alone.
 func nativeSplitInPath(prog string) (string, bool) {
-	// matching parentheses (outside string literals)
-	openOf := map[int]int{}
-	var stack []int
-	for k := 0; k < len(prog); k++ {
-		switch prog[k] {
-		case '"':
-			k = skipString(prog, k) - 1
-		case '(':
-			stack = append(stack, k)
-		case ')':
-			if len(stack) > 0 {
-				openOf[k] = stack[len(stack)-1]
-				stack = stack[:len(stack)-1]
-			}
-		}
-	}
 	inPath := make([]bool, len(prog))
 	mark := func(a, b int) {
 		for k := a; k < b && k < len(prog); k++ {
 			inPath[k] = true
 		}
 	}
-	for k := 0; k < len(prog); k++ {
-		if prog[k] == '"' {
-			k = skipString(prog, k) - 1
-			continue
+	// code regions: the program and, recursively, the inside of every string interpolation
+	var regions [][2]int
+	var collect func(a, b int)
+	collect = func(a, b int) {
+		regions = append(regions, [2]int{a, b})
+		for k := a; k < b; k++ {
+			if prog[k] != '"' {
+				continue
+			}
+			j := k + 1
+			for j < b {
+				if prog[j] == '\\' {
+					if j+1 < b && prog[j+1] == '(' {
+						if end, _ := matchParen(prog, j+1); end > 0 && end < b {
+							collect(j+2, end)
+							j = end + 1
+							continue
+						}
+					}
+					j += 2
+					continue
+				}
+				if prog[j] == '"' {
+					break
+				}
+				j++
+			}
+			k = j
 		}
-		for _, fn := range []string{"path(", "del(", "pick("} {
-			if strings.HasPrefix(prog[k:], fn) && (k == 0 || !isIdentByte(prog[k-1])) {
-				if end, _ := matchParen(prog, k+len(fn)-1); end > 0 {
-					mark(k+len(fn), end)
+	}
+	collect(0, len(prog))
+	for _, reg := range regions {
+		a, b := reg[0], reg[1]
+		// matching parentheses of this region (outside its string literals)
+		openOf := map[int]int{}
+		var stack []int
+		for k := a; k < b; k++ {
+			switch prog[k] {
+			case '"':
+				k = skipString(prog, k) - 1
+			case '(':
+				stack = append(stack, k)
+			case ')':
+				if len(stack) > 0 {
+					openOf[k] = stack[len(stack)-1]
+					stack = stack[:len(stack)-1]
 				}
 			}
 		}
-		for _, op := range []string{" |= ", " = ", " += ", " //= "} {
-			if strings.HasPrefix(prog[k:], op) && k > 0 {
-				if prog[k-1] == ')' {
-					if o, ok := openOf[k-1]; ok {
-						mark(o, k)
+		for k := a; k < b; k++ {
+			if prog[k] == '"' {
+				k = skipString(prog, k) - 1
+				continue
+			}
+			for _, fn := range []string{"path(", "del(", "pick("} {
+				if strings.HasPrefix(prog[k:], fn) && (k == 0 || !isIdentByte(prog[k-1])) {
+					if end, _ := matchParen(prog, k+len(fn)-1); end > 0 {
+						mark(k+len(fn), end)
 					}
-				} else {
-					a := k
-					for a > 0 && (isIdentByte(prog[a-1]) || prog[a-1] == '.' || prog[a-1] == '$') {
-						a--
-					}
-					mark(a, k)
 				}
+			}
+			for _, op := range []string{" |= ", " = ", " += ", " //= "} {
+				if strings.HasPrefix(prog[k:], op) && k > a {
+					if prog[k-1] == ')' {
+						if o, ok := openOf[k-1]; ok {
+							mark(o, k)
+						}
+					} else {
+						s := k
+						for s > a && (isIdentByte(prog[s-1]) || prog[s-1] == '.' || prog[s-1] == '$') {
+							s--
+						}
+						mark(s, k)
+					}
+				}
+			}
+		}
+	}
+	// a closure parameter used as a path inside `def f(g...): BODY;` makes the first
+	// argument of every call f(..) a path expression too
+	for k := 0; k+len("def f(g") <= len(prog); k++ {
+		if !strings.HasPrefix(prog[k:], "def f(g") || insideString(prog, k) {
+			continue
+		}
+		bodyStart := strings.Index(prog[k:], "): ")
+		if bodyStart < 0 {
+			continue
+		}
+		bodyStart += k + len("): ")
+		bodyEnd, depth := len(prog), 0
+	scan:
+		for j := bodyStart; j < len(prog); j++ {
+			switch prog[j] {
+			case '"':
+				j = skipString(prog, j) - 1
+			case '(', '[', '{':
+				depth++
+			case ')', ']', '}':
+				depth--
+				if depth < 0 {
+					bodyEnd = j
+					break scan
+				}
+			case ';':
+				if depth == 0 {
+					bodyEnd = j
+					break scan
+				}
+			}
+		}
+		usedAsPath := false
+		for j := bodyStart; j < bodyEnd; j++ {
+			if prog[j] == 'g' && inPath[j] && !isIdentByte(prog[j-1]) && prog[j-1] != '$' && prog[j-1] != '.' && (j+1 >= len(prog) || !isIdentByte(prog[j+1])) {
+				usedAsPath = true
+			}
+		}
+		if !usedAsPath {
+			continue
+		}
+		// the scope of this definition: up to the end of the enclosing group or a
+		// later definition of the same name
+		scopeDepth := 0
+		for j := bodyEnd; j+2 <= len(prog); j++ {
+			switch prog[j] {
+			case '(', '[', '{':
+				scopeDepth++
+			case ')', ']', '}':
+				scopeDepth--
+			}
+			if scopeDepth < 0 || strings.HasPrefix(prog[j:], "def f(") {
+				break
+			}
+			if strings.HasPrefix(prog[j:], "f(") && !isIdentByte(prog[j-1]) && !strings.HasSuffix(prog[:j], "def ") && !insideString(prog, j) {
+				if end, semis := matchParen(prog, j+1); end > 0 {
+					argEnd := end
+					if len(semis) > 0 {
+						argEnd = semis[0]
+					}
+					mark(j+2, argEnd)
+				}
+			}
+		}
+	}
+	// a function without parameters called inside a path expression makes its body a
+	// path expression: `def f: BODY; ... path(f)`
+	for k := 0; k+len("def f: ") <= len(prog); k++ {
+		if !strings.HasPrefix(prog[k:], "def f: ") || insideString(prog, k) {
+			continue
+		}
+		bodyStart := k + len("def f: ")
+		bodyEnd, depth := len(prog), 0
+	scanBody:
+		for j := bodyStart; j < len(prog); j++ {
+			switch prog[j] {
+			case '"':
+				j = skipString(prog, j) - 1
+			case '(', '[', '{':
+				depth++
+			case ')', ']', '}':
+				depth--
+				if depth < 0 {
+					bodyEnd = j
+					break scanBody
+				}
+			case ';':
+				if depth == 0 {
+					bodyEnd = j
+					break scanBody
+				}
+			}
+		}
+		scopeDepth := 0
+		for j := bodyEnd; j < len(prog); j++ {
+			switch prog[j] {
+			case '(', '[', '{':
+				scopeDepth++
+			case ')', ']', '}':
+				scopeDepth--
+			}
+			if scopeDepth < 0 || strings.HasPrefix(prog[j:], "def f:") {
+				break
+			}
+			if prog[j] == 'f' && inPath[j] && !isIdentByte(prog[j-1]) && prog[j-1] != '$' && prog[j-1] != '.' && (j+1 >= len(prog) || !isIdentByte(prog[j+1]) && prog[j+1] != '(') && !insideString(prog, j) {
+				mark(bodyStart, bodyEnd)
+				break
 			}
 		}
 	}
 	found := false
 	var b strings.Builder
 	for k := 0; k < len(prog); {
-		if prog[k] == '"' && !inPath[k] {
-			j := skipString(prog, k)
-			b.WriteString(prog[k:j])
-			k = j
-			continue
-		}
 		if inPath[k] && strings.HasPrefix(prog[k:], "split(") && (k == 0 || !isIdentByte(prog[k-1])) && !strings.HasSuffix(prog[:k], "def ") && !insideString(prog, k) {
 			found = true
 			b.WriteString("_orig_split(")
